@@ -167,8 +167,117 @@ Proof.
   assert (Hp : forall w n, rstr (pad_left w (fmt_uint n)) = true).
   { intros w n. apply digits_rstr. unfold pad_left. generalize (N.of_nat w) as ww. generalize (fmt_uint_digits n). generalize (fmt_uint n) as l.
     induction w as [|w IH]; intros l Hl ww; cbn [pad_left_aux]; [exact Hl|].
-    destruct (nlen l <? ww); [|exact Hl]. apply IH. cbn [all_digits forallb]. now rewrite Hl. }
+    destruct (nlen l <? ww); [|exact Hl]. apply IH. unfold all_digits in *. cbn [forallb]. now rewrite Hl. }
   rewrite !Hp. reflexivity.
 Qed.
 Lemma utc_marshal_nonnil t : utc_marshal t <> [].
 Proof. unfold utc_marshal. intros E. apply (f_equal (@rev N)) in E. rewrite !rev_app_distr in E. cbn in E. discriminate. Qed.
+
+(* ---- Range ---- *)
+(* a time value survives its own text codec *)
+Definition codec_ok {A} (f : list N -> option A) (ms : A -> list N) (x : A) : Prop :=
+  f (ms x) = Some x /\ rstr (ms x) = true /\ ms x <> [].
+Definition codec_ok_opt {A} (f : list N -> option A) (ms : A -> list N) (o : option A) : Prop :=
+  match o with Some x => codec_ok f ms x | None => True end.
+
+Lemma start_end_codec {A} (f : list N -> option A) (ms : A -> list N) st en :
+  codec_ok f ms st -> codec_ok_opt f ms en ->
+  start_end f (ms st ++ [DASH] ++ opt_str ms en) = Some (st, en) /\
+  plain_ok SEMI (ms st ++ [DASH] ++ opt_str ms en) = true.
+Proof.
+  intros (Hf & Hr & Hne) Hen. split.
+  - unfold start_end. cbn [app]. rewrite split_on_cons by (apply rstr_nosep; [apply Hr|reflexivity]).
+    destruct en as [e|]; cbn [opt_str].
+    + destruct Hen as (Hfe & Hre & Hnee).
+      rewrite split_on_clean by (apply rstr_nosep; [apply Hre|reflexivity]).
+      rewrite Hf. destruct (ms e) eqn:E; [congruence|]. rewrite <- E, Hfe. reflexivity.
+    + cbn [split_on]. now rewrite Hf.
+  - unfold plain_ok. rewrite !nosep_app. rewrite (rstr_nosep SEMI _ Hr eq_refl). cbn [nosep forallb andb].
+    assert (Hn : nosep SEMI (opt_str ms en) = true).
+    { destruct en as [e|]; [|reflexivity]. destruct Hen as (_ & Hre & _). now apply rstr_nosep. }
+    change (forallb (fun c => negb (c =? SEMI)) (opt_str ms en)) with (nosep SEMI (opt_str ms en)). rewrite Hn.
+    cbn [andb negb N.eqb DASH SEMI Pos.eqb].
+    destruct (ms st) as [|c t]; [congruence|]. cbn [app]. cbn [rstr forallb] in Hr.
+    apply andb_true_iff in Hr as [Hr _]. unfold rchar, is_digit, COL, DOT in Hr. unfold DQ. lia.
+Qed.
+
+Definition value_codec_ok (v : range_value) : Prop :=
+  match v with
+  | RSmpte st en => codec_ok smpte_unmarshal smpte_marshal st /\ codec_ok_opt smpte_unmarshal smpte_marshal en
+  | RNpt st en => codec_ok npt_unmarshal npt_marshal st /\ codec_ok_opt npt_unmarshal npt_marshal en
+  | RUtc st en => codec_ok utc_unmarshal utc_marshal st /\ codec_ok_opt utc_unmarshal utc_marshal en
+  end.
+
+Lemma gstep_smpte st v : gstep st (K_smpte, v) = option_map (fun p => (Some (RSmpte (fst p) (snd p)), snd st)) (start_end smpte_unmarshal v).
+Proof. destruct st. reflexivity. Qed.
+Lemma gstep_npt st v : gstep st (K_npt, v) = option_map (fun p => (Some (RNpt (fst p) (snd p)), snd st)) (start_end npt_unmarshal v).
+Proof. destruct st. reflexivity. Qed.
+Lemma gstep_clock st v : gstep st (K_clock, v) = option_map (fun p => (Some (RUtc (fst p) (snd p)), snd st)) (start_end utc_unmarshal v).
+Proof. destruct st. reflexivity. Qed.
+Lemma gstep_time st v : gstep st (K_time, v) = option_map (fun t => (fst st, Some t)) (utc_unmarshal v).
+Proof. destruct st. reflexivity. Qed.
+
+Lemma utc_codec_ok t : wf_utc t = true -> codec_ok utc_unmarshal utc_marshal t.
+Proof. intros H. split; [now apply utc_roundtrip|]. split; [apply utc_marshal_rstr|apply utc_marshal_nonnil]. Qed.
+
+Lemma utc_plain_ok t : plain_ok SEMI (utc_marshal t) = true.
+Proof.
+  unfold plain_ok. rewrite (rstr_nosep SEMI _ (utc_marshal_rstr t) eq_refl). cbn [andb].
+  pose proof (utc_marshal_rstr t) as Hr. pose proof (utc_marshal_nonnil t) as Hn.
+  destruct (utc_marshal t) as [|c r]; [congruence|]. cbn [rstr forallb] in Hr.
+  apply andb_true_iff in Hr as [Hr _]. unfold rchar, is_digit, COL, DOT in Hr. unfold DQ. lia.
+Qed.
+
+Theorem range_roundtrip_id h :
+  value_codec_ok (r_value h) -> opt_all wf_utc (r_time h) = true ->
+  range_unmarshal_with id_order (range_marshal h) = Ok h.
+Proof.
+  intros Hv Ht. destruct h as [v tm]. cbn [r_value r_time] in *.
+  unfold range_unmarshal_with, range_marshal, range_kvitems. cbn [r_value r_time].
+  assert (Hparse : kv_parse (render_items [SEMI] ([range_value_item v] ++ opt_it tm (fun t => (K_time, VPlain (utc_marshal t))))) SEMI
+                   = Some (map item_kv ([range_value_item v] ++ opt_it tm (fun t => (K_time, VPlain (utc_marshal t)))))).
+  { apply (kv_parse_render_distinct SEMI []); [reflexivity|reflexivity| |].
+    - rewrite forallb_app. apply andb_true_iff. split.
+      + cbn [forallb]. rewrite andb_true_r. destruct v as [st en|st en|st en]; cbn [range_value_item]; destruct Hv as [H1 H2];
+        (apply item_ok_plain; [reflexivity|exact (proj2 (start_end_codec _ _ st en H1 H2))]).
+      + destruct tm as [t|]; [|reflexivity]. cbn [opt_it forallb]. rewrite item_ok_plain; [reflexivity|reflexivity|apply utc_plain_ok].
+    - destruct v, tm; reflexivity. }
+  rewrite Hparse. unfold id_order, gfold. rewrite map_app, ofold_app. cbn [map ofold]. unfold item_kv at 1.
+  destruct v as [st en|st en|st en]; cbn [range_value_item fst snd]; destruct Hv as [H1 H2];
+  rewrite ?gstep_smpte, ?gstep_npt, ?gstep_clock, (proj1 (start_end_codec _ _ st en H1 H2)); cbn [option_map fst snd obind];
+  (destruct tm as [t|]; cbn [opt_it map ofold]; [|reflexivity]);
+  unfold item_kv; cbn [fst snd]; rewrite gstep_time, utc_roundtrip by exact Ht; reflexivity.
+Qed.
+
+Lemma range_marshal_no_conflict h : value_codec_ok (r_value h) -> range_no_conflict (range_marshal h) = true.
+Proof.
+  intros Hv. destruct h as [v tm]. cbn [r_value] in Hv.
+  unfold range_no_conflict, range_marshal, range_kvitems. cbn [r_value r_time].
+  rewrite (kv_parse_render_distinct SEMI []); [|reflexivity|reflexivity| |].
+  - destruct v, tm; reflexivity.
+  - rewrite forallb_app. apply andb_true_iff. split.
+    + cbn [forallb]. rewrite andb_true_r. destruct v as [st en|st en|st en]; cbn [range_value_item]; destruct Hv as [H1 H2];
+      (apply item_ok_plain; [reflexivity|exact (proj2 (start_end_codec _ _ st en H1 H2))]).
+    + destruct tm as [t|]; [|reflexivity]. cbn [opt_it forallb]. rewrite item_ok_plain; [reflexivity|reflexivity|apply utc_plain_ok].
+  - destruct v, tm; reflexivity.
+Qed.
+
+(* Range round trip, in every iteration order, for every value whose time values survive their own text codec
+   (always the case for UTC - next theorem; for NPT this is exactly what F8 denies for some values) *)
+Theorem range_roundtrip_partial h o :
+  is_perm o -> value_codec_ok (r_value h) -> opt_all wf_utc (r_time h) = true ->
+  range_unmarshal_with o (range_marshal h) = Ok h.
+Proof.
+  intros Ho Hv Ht. rewrite (range_deterministic_partial _ o id_order Ho id_is_perm).
+  - now apply range_roundtrip_id.
+  - now apply range_marshal_no_conflict.
+Qed.
+
+Theorem range_roundtrip_utc st en tm o :
+  is_perm o -> wf_utc st = true -> opt_all wf_utc en = true -> opt_all wf_utc tm = true ->
+  range_unmarshal_with o (range_marshal (mkRange (RUtc st en) tm)) = Ok (mkRange (RUtc st en) tm).
+Proof.
+  intros Ho H1 H2 H3. apply range_roundtrip_partial; [exact Ho| |exact H3].
+  cbn [r_value value_codec_ok]. split; [now apply utc_codec_ok|]. destruct en as [e|]; [|exact I].
+  cbn [opt_all] in H2. now apply utc_codec_ok.
+Qed.
